@@ -39,7 +39,10 @@ def fixtures():
     import ECAgent.Core as core
     import ECAgent.Environments as envs
     if _T is None:
-        _T = [type(f'CC{i}', (core.Component,), {'__slots__': ()}) for i in range(3)]
+        # CC0 is a plain component; CC1 is container-like (an inventory: empty -> len 0 -> falsy); CC2 is a switch that is currently off
+        _T = [type('CC0', (core.Component,), {'__slots__': ()}),
+              type('CC1', (core.Component,), {'__slots__': (), '__len__': lambda self: 0}),
+              type('CC2', (core.Component,), {'__slots__': (), '__bool__': lambda self: False})]
     return core, envs, _T
 
 
